@@ -28,7 +28,7 @@ inductive FailKind
 
 inductive Verdict
   | pass
-  | fail (k : FailKind)
+  | fail (k : FailKind) (detail : Str)   -- kind + the `actual` / `err` payload of the `TestErrorKind`
   | unreachable           -- the `_ => unreachable!()` arm
   deriving DecidableEq, Repr
 
@@ -49,32 +49,39 @@ def judgeStatement (c : JCfg) (exp : SExp) : Output → Verdict
   | .nothing => .pass
   | .query _ rows none =>
     (match exp with
-     | .error _ => .fail .unexpectedOk
-     | .count n => if n ≠ rows.length then .fail .countMismatch else .pass
+     | .error _ => .fail .unexpectedOk []
+     | .count n =>
+       if n ≠ rows.length then
+         .fail .countMismatch (kw "returned " ++ natToStr rows.length ++ kw " rows")
+       else .pass
      | .ok => .pass)
   | .statement count error =>
     (match error, exp with
-     | none, .error _ => .fail .unexpectedOk
-     | none, .count n => if n ≠ count then .fail .countMismatch else .pass
+     | none, .error _ => .fail .unexpectedOk []
+     | none, .count n =>
+       if n ≠ count then .fail .countMismatch (kw "affected " ++ natToStr count ++ kw " rows")
+       else .pass
      | none, .ok => .pass
-     | some e, .error ee => if ee.isMatch c.regexMatch e then .pass else .fail .errorMismatch
-     | some _, _ => .fail .unexpectedFail)
+     | some e, .error ee => if ee.isMatch c.regexMatch e then .pass else .fail .errorMismatch e
+     | some e, _ => .fail .unexpectedFail e)
   | _ => .unreachable
 
 def judgeQuery (c : JCfg) (exp : QExp) : Output → Verdict
   | .nothing => .pass
   | .statement _ none =>
     (match exp with
-     | .error _ => .fail .unexpectedOk
-     | .results _ _ _ _ res => if res.isEmpty then .pass else .fail .resultMismatch)
+     | .error _ => .fail .unexpectedOk []
+     | .results _ _ _ _ res => if res.isEmpty then .pass else .fail .resultMismatch [])
   | .query types rows error =>
     (match error, exp with
-     | none, .error _ => .fail .unexpectedOk
-     | some e, .error ee => if ee.isMatch c.regexMatch e then .pass else .fail .errorMismatch
-     | some _, .results .. => .fail .unexpectedFail
+     | none, .error _ => .fail .unexpectedOk []
+     | some e, .error ee => if ee.isMatch c.regexMatch e then .pass else .fail .errorMismatch e
+     | some e, .results .. => .fail .unexpectedFail e
      | none, .results etypes _ _ _ eres =>
-       if !columnsOk c.strictCols types etypes then .fail .columnsMismatch
-       else if !defaultValidator (applyResultMode c.resultMode rows) eres then .fail .resultMismatch
+       if !columnsOk c.strictCols types etypes then
+         .fail .columnsMismatch (types.map ColT.toChar)
+       else if !defaultValidator (applyResultMode c.resultMode rows) eres then
+         .fail .resultMismatch (joinNl (rows.map joinSp))
        else .pass)
   | _ => .unreachable
 
@@ -82,11 +89,12 @@ def judgeSystem (expStdout : Option Str) : Output → Verdict
   | .nothing => .pass
   | .system actual error =>
     (match error with
-     | some _ => .fail .systemFail
+     | some err => .fail .systemFail err
      | none =>
        match expStdout with
        | none => .pass
-       | some e => if e ≠ trim (actual.getD []) then .fail .stdoutMismatch else .pass)
+       | some e =>
+         if e ≠ trim (actual.getD []) then .fail .stdoutMismatch (actual.getD []) else .pass)
   | _ => .unreachable
 
 /-- `run_async_no_retry`'s `match (record, &result)` -/
